@@ -35,6 +35,11 @@
 (*  C14.nextBytes         a transaction hands upstream exactly the next    *)
 (*                        frame of the stream                              *)
 (*  C14.chunkIndependent  the outcome does not depend on the chunking      *)
+(* Calls of one client may be in flight concurrently (each on its own       *)
+(* pooled connection) and clients of different interfaces may live in one  *)
+(* process; the property speaks about every call on its own, so every      *)
+(* Call / Reply pair is judged by itself, whatever else was outstanding    *)
+(* (the events carry the interface-qualified method key into Idl).         *)
 (* Nothing is asserted for replies outside the property (non-void reply    *)
 (* without a result, malformed payloads, truncated streams beyond          *)
 (* chunk-independence).                                                    *)
